@@ -12,3 +12,4 @@ import ExaModel.Props.C05
 #print axioms Exa.Props.C05.handle_connection_py_is_model
 #print axioms Exa.Props.C05.can_reconnect_py_is_model
 #print axioms Exa.Props.C05.reset_py_is_model
+#print axioms Exa.Props.C05.control_py_is_model
